@@ -61,7 +61,7 @@ func init() {
 			"x certificate presented {right, other CA, wrong name, only the dialled IP, only a DNS name} x host {IPv4, IPv4:port, IPv6, [IPv6]:port, localhost, localhost:port - resolved by the driver itself; the certificates are then valid for name+address, address only, name only (probe tls.namecell:*)} x control connection on/off x TLS 1.3/1.2 x authentication over TLS on/off; " +
 			"in half of the cells with verification on, no ServerName and good files a second node 10.0.0.2 / fd00::2 is discovered through system.peers and dialled after the first, presenting its own certificate (only SAN: its own address) or, in a third of those, the first node's (probes tls.two-nodes*); " +
 			"core table = 14 rows x chain trusted/untrusted x 5 certificates = 140 cells (probe tls.cell:*). " +
-			"Authentication half: class demanded {none, each of the 10 built-in approved classes, a class only on the caller's list, unknown, 4 near-misses of an approved class} x client {none, PasswordAuthenticator default list, custom list, custom list + one default, AuthProvider} x 7 credential pairs x control connection on/off (probe auth.cell:*). " +
+			"Authentication half: class demanded {none, each of the 10 built-in approved classes, a class only on the caller's list, unknown, 4 near-misses of an approved class} x client {none, PasswordAuthenticator default list, custom list, custom list + one default, AuthProvider} x 9 credential pairs x control connection on/off (probe auth.cell:*). " +
 			"Session creation repeated on the same objects: in a third of the TLS cells NewSession(*cfg) / cfg.CreateSession() is called a second (in a ninth a third) time with the very same ClusterConfig, *SslOptions and *tls.Config after the previous attempt finished and its session, if any, was closed; the documented outcome must hold for every attempt (fault counters tls.variant:attempts:*, probes tls.retry:*). " +
 			"Form of the password authenticator (both halves): value, pointer, user type embedding it (value / pointer), user type delegating to it (auth.variant:form:* / tls.variant:authform:*); " +
 			"AllowedAuthenticators additionally: empty non-nil, a list that contains the demanded class whatever it is, a list of near-misses of the demanded class, the default list written out plus a custom class (auth.variant:list:*, probes auth.formcell:* / auth.listcell:*). " +
@@ -1637,6 +1637,9 @@ var secCreds = [][2]string{
 	{"üser-ñ-用户", "Pässwörd-日本語-🔑"},
 	{strings.Repeat("u", 300), strings.Repeat("p", 70000)},
 	{"a b\tc", "p:w=\"x\" y\\z"},
+	// white space at the ends is part of a role name / password like any other character
+	{" lead", "trail \n"},
+	{"\tuser\u00a0", "\u3000pass\u0085"},
 }
 
 // The legal ways of handing the driver a password authenticator. gocql's documentation
